@@ -1,8 +1,14 @@
 """C02 — multilinear products equal their definition in every representation.
 
 The cells live in helper modules (imported here so that they register):
-  _c02_common   holders, mode designations, NumPy reference kernels, comparison policy
-  _c02_modes    ttv, ttm (every designation form, enumerated and sampled)
+  _c02_common    holders (case dict <-> pyttb object <-> reference array), mode designations, NumPy reference
+                 kernels, comparison policy
+  _c02_modes     ttv, ttm: every designation form (dims in any order / exclude_dims / one multiplicand per listed
+                 mode or per tensor mode / scalar dim / bare multiplicand), sampled and enumerated
+  _c02_mttkrp    mttkrp (five holders; factor list or Kruskal operand with non-unit weights), tensor.mttkrps
+  _c02_pairs     ttt, innerprod (every supported ordered pair of classes), scale, mask
+  _c02_unary     ttsv, norm (incl. tenmat / sptenmat), contract, collapse, ttensor.reconstruct
+  _c02_findings  predicates referenced by known_findings/C02.json
 """
 
 from __future__ import annotations
@@ -19,5 +25,37 @@ from ._c02_findings import PREDICATES  # noqa: F401
 logging.disable(logging.WARNING)  # pyttb logs a warning per no-copy construction; not a verdict
 
 PROPERTY = "C02"
-RULE = "TBD"
-ASSUMPTIONS = []
+RULE = (
+    "case = (holder of class tensor | sptensor(any stored order; none/one/few/some/all nonzero) | ktensor | "
+    "ttensor(dense or sparse core) | sumtensor(1-3 parts of the four kinds), operation arguments) drawn by Hypothesis, "
+    "or a full enumeration (every designation of every non-empty mode subset x every holder class on fixed "
+    "non-cubical shapes; every n / skip_dim / version / ordered mode pair / reducer / ordered class pair).  "
+    "Oracle = the defining sum over indices evaluated with numpy (tensordot / einsum / trace / take) on the array the "
+    "case dict denotes; the result is compared through the array it denotes whatever class is handed back, with "
+    "remaining modes ascending; integer-valued data exactly, general floats within 64*n*eps*(same sum on absolute "
+    "values).  Labels record result class (dense / sparse / empty sparse / scalar) and the reference fill on either "
+    "side of 50 %.  Non-trivial: >= 2 distinct mode sizes, selected modes not an ascending prefix listed in order, "
+    "non-constant multiplicands and a non-zero expected result (per-operation analogues for the kernels without a "
+    "mode designation: N>=3 and rank>=2 for mttkrp, unequal/unsorted dims for ttt, a trace size >=2 for contract, "
+    "a mask hitting both zeros and nonzeros, ...)."
+)
+ASSUMPTIONS = [
+    "multiplicand alignment: a list as long as the listed dims pairs multiplicand j with dims[j]; a list as long as "
+    "the tensor order pairs multiplicand d with mode d (unused entries are junk of any shape and must not be looked "
+    "at); with exclude_dims and one multiplicand per selected mode they follow the remaining modes in ascending "
+    "order; when |dims| == N only the first rule is exercised",
+    "scale: the k-th mode of the factor belongs to the k-th selected mode in ascending order (the only reading the "
+    "shape check of both implementations accepts); dims themselves are listed in any order",
+    "mask: values are expected in the order in which W enumerates its ones (F order for a dense W, stored order "
+    "for a sparse W)",
+    "sparse collapse hands only stored nonzeros to the reducer (documented design): only zero-insensitive reducers "
+    "(sum, sum of squares) are used there; dense collapse also uses max and min",
+    "norm is compared in squared form, |r^2 - sum a^2| <= 64 n eps B + 8 eps S, because Kruskal/Tucker norms are "
+    "computed from Gram matrices with cancellation; sumtensor.norm is a documented stub returning 0 and is not judged",
+    "ttsv with a one-entry result may return a scalar or a one-entry array: only the value is judged",
+    "the class of a sparse-or-dense result is recorded (labels) but not judged: the property fixes values, not "
+    "the storage class chosen at the 50 % switch",
+    "scipy sparse matrices are passed to tensor.ttm / sptensor.ttm (both accept them) because they are the only "
+    "route to the sparse-result branch of sptensor.ttm",
+    "exact comparison for integer-valued data is used only while the absolute-value bound stays below 2**50",
+]
